@@ -294,7 +294,11 @@ impl<F: PathFetcher> MultiPathManager<F> {
 
                 let expired = active.is_expired(timestamp).unwrap_or(false);
 
-                debug_assert!(!expired, "Returned expired path from try_get_path");
+                // The worker only acts on its maintenance ticks, so between a path's expiry and
+                // the next tick the active slot can still hold it. Never hand it out.
+                if expired {
+                    return None;
+                }
 
                 Some(active)
             }
@@ -374,7 +378,11 @@ impl<F: PathFetcher> MultiPathManager<F> {
             // XXX(ake): Since the Paths are actively managed, they should never be expired
             // here.
             let expired = active.is_expired(timestamp).unwrap_or(false);
-            debug_assert!(!expired, "Returned expired path from get_path");
+
+            // See `cached_path`: never hand out an expired path.
+            if expired {
+                return Err(Arc::new(PathFetchError::NoPathsFound));
+            }
         }
 
         res
